@@ -266,10 +266,14 @@ pub fn draw_spelling(rng: &mut Rng, from: &str, target: &str, is_data: bool, std
     let ext = if is_data { "bin" } else { "asm" };
     // `clean` cases use only spellings the property requires to work, so
     // that deep graphs (chains, diamonds, cycles, #once) are actually expanded
-    let style = if clean { *rng.pick(&[0usize, 0, 0, 0, 30, 38, 46, 54, 60, 74, 100, 101, 102, 108]) } else { rng.below(116) };
+    let style = if clean { *rng.pick(&[0usize, 0, 0, 0, 30, 38, 46, 54, 60, 74, 100, 101, 102, 108]) } else { rng.below(118) };
     match style {
         // a trailing separator (what it means is not stated: only the safety
         // invariants and the slash-twin relation judge these)
+        // a path *through* a file, and a component longer than any file
+        // system allows: both simply name nothing
+        116 => format!("{}/inner.{}", rel, ext),
+        117 => format!("{}{}.{}", "n".repeat(300), rel.replace('/', "_"), ext),
         113 => format!("{}/", rel),
         114 => format!("{}\\", rel.replace('/', "\\")),
         115 => format!("{}/.", rel),
